@@ -2,6 +2,7 @@ package nc
 
 import (
 	"go/types"
+	"regexp"
 	"strings"
 
 	"golang.org/x/tools/go/ssa"
@@ -289,6 +290,17 @@ func (c *Ctx) c11KeysetId(f *ssa.Function) {
 		return
 	}
 	ls := list.String()
+	// the names of the (amount, key) fields of the list's element type are read from the list itself:
+	// F=key(map) is the amount field, G=elem(map) the key field (struct form only)
+	amtField, keyField := "", ""
+	if !keysForm {
+		if m := regexp.MustCompile(`(\w+)=key\(` + regexp.QuoteMeta(ks) + `\)`).FindStringSubmatch(ls); m != nil {
+			amtField = m[1]
+		}
+		if m := regexp.MustCompile(`(\w+)=elem\(` + regexp.QuoteMeta(ks) + `\)`).FindStringSubmatch(ls); m != nil {
+			keyField = m[1]
+		}
+	}
 	// sortedness
 	okSort, why := false, "no sort of the list found"
 	if ls == "slices.Sorted(maps.Keys("+ks+"))" {
@@ -315,12 +327,20 @@ func (c *Ctx) c11KeysetId(f *ssa.Function) {
 				for _, r := range Returns(cmpFn) {
 					e := co.Of(r.Results[0])
 					var okc bool
+					if len(cmpFn.Params) != 2 {
+						why = "comparator does not take two parameters"
+						continue
+					}
+					p0, p1 := "P:"+cmpFn.Params[0].Name(), "P:"+cmpFn.Params[1].Name()
+					byAmount := func(x, y *Ex) bool {
+						return keysForm || (amtField != "" && strings.HasSuffix(x.String(), "."+amtField) && strings.HasSuffix(y.String(), "."+amtField))
+					}
 					if strings.HasPrefix(d.Name, "sort.") {
-						okc = e.K == "bin" && e.S == "<" && strings.Contains(e.Args[0].String(), "[P:i]") && strings.Contains(e.Args[1].String(), "[P:j]") &&
-							(keysForm || (strings.HasSuffix(e.Args[0].String(), ".amount") && strings.HasSuffix(e.Args[1].String(), ".amount")))
+						okc = e.K == "bin" && e.S == "<" && strings.Contains(e.Args[0].String(), "["+p0+"]") && strings.Contains(e.Args[1].String(), "["+p1+"]") &&
+							byAmount(e.Args[0], e.Args[1])
 					} else {
-						okc = isCall(e, "cmp.Compare") && strings.HasPrefix(arg(e, 0).String(), "P:a") && strings.HasPrefix(arg(e, 1).String(), "P:b") &&
-							(keysForm || (strings.HasSuffix(arg(e, 0).String(), ".amount") && strings.HasSuffix(arg(e, 1).String(), ".amount")))
+						okc = isCall(e, "cmp.Compare") && strings.HasPrefix(arg(e, 0).String(), p0) && strings.HasPrefix(arg(e, 1).String(), p1) &&
+							byAmount(arg(e, 0), arg(e, 1))
 					}
 					if okc {
 						okSort = true
@@ -338,7 +358,12 @@ func (c *Ctx) c11KeysetId(f *ssa.Function) {
 	case keysForm:
 		okAll = ls == "slices.Sorted(maps.Keys("+ks+"))" || ls == "map("+ks+" => key("+ks+"))" || ls == "make:[]uint64{key("+ks+")}"
 	default:
-		okAll = strings.Contains(ls, "amount=key("+ks+")") && strings.Contains(ls, "pk=elem("+ks+")")
+		// the serialised field is the key field of the element, filled from the map's values
+		serField := ""
+		if e := o.Of(c.P.Describe(ser).Recv); e.K == "field" {
+			serField = e.S
+		}
+		okAll = amtField != "" && keyField != "" && serField == keyField
 	}
 	R.Check("R2", fk, "every key of the map takes part", pos, okAll, "the sorted list is built from every (amount, key) entry of the map", short(ls, 160))
 	// the bytes reach SHA-256 in list order
